@@ -242,3 +242,56 @@ def h_never_left_behind(sw1, ebp, code, first):
     """whoever wins the cancel/collect race, the task is handed on once with
     an outcome (it reaches a final state)"""
     c07.h_cancel_vs_watcher(sw1, 0, ebp, code, first, False, quick=False)
+
+
+# ------------------------------------------------------------------------------
+# L7: the agent scheduler leaves no task behind: whatever arrives in one intake
+# (several tasks, several priorities, pilot full or not) is started, waiting,
+# failed or canceled - and everything that waits is started once the pilot
+# drains
+#
+import harness.c04 as c04                                          # noqa: E402
+import harness.sched as HS                                         # noqa: E402
+
+BULK_PRIOS = [(0,), (0, 0), (0, 1), (1, 0), (0, 2, 1), (2, 0, 1), (1, 1, 0),
+              (0, 1, 2)]
+
+
+@obligation(params={'bp': (0, len(BULK_PRIOS) - 1), 'full': 'bool',
+                    'big': (0, 3)},
+            timeout={'quick': 300, 'thorough': 600},
+            funcs=c04.FUNCS,
+            bounds='1 node x 4 cores, idle or fully occupied by one task; one '
+                   'intake of 1..3 tasks with priorities from 8 patterns over '
+                   '{0,1,2}, each 1 rank x 1 core except one optional task of 2 '
+                   'cores; then the running tasks complete one by one')
+def h_sched_never_left_behind(bp, full, big):
+    """every task of an intake is somewhere; all are started in the end"""
+    bp, big = conc(bp, 0, len(BULK_PRIOS) - 1), conc(big, 0, 3)
+    w = c04.World(1, 4)
+    if full:
+        t = HS.mk_task('t0', ranks=1, cpr=4)
+        w.tasks['t0'] = t; w.n = 1
+        w.s._queue_sched.put(([t], w.s._SCHEDULE))
+        w.settle()
+        check(w.free() == [0], 'setup: pilot not full')
+    bulk = []
+    for i, prio in enumerate(BULK_PRIOS[bp]):
+        uid = 't%d' % w.n; w.n += 1
+        t = HS.mk_task(uid, ranks=1, cpr=2 if big == i + 1 else 1,
+                       priority=prio)
+        w.tasks[uid] = t
+        bulk.append(t)
+    w.s._queue_sched.put((bulk, w.s._SCHEDULE))
+    w.settle()                 # observe(): each task in exactly one place
+    for _ in range(len(w.tasks) + 1):
+        if not w.complete(0): break
+        w.settle()
+    reach()
+    trace('advanced', w.s.advanced)
+    for uid in w.tasks:
+        rep = w.reports(uid)
+        check(rep['started'] == 1 and not rep['failed'], '%s (priority %s) '
+              'was never started although the pilot drained: reports %s, '
+              'waiting %s', uid, w.tasks[uid]['description']['priority'], rep,
+              w.waiting(uid))
